@@ -30,7 +30,9 @@ noncomputable section
 theorem shock_leaf (q : SedovShock.P) {t : ℝ} (ht : 0 < t) :
     SedovShock.rho2 q t = SedovShock.L1.rho2 q t ∧ SedovShock.u2 q t = SedovShock.L1.u2 q t
       ∧ SedovShock.p2 q t = SedovShock.L1.p2 q t ∧ SedovShock.r2 q t = SedovShock.L1.r2 q t := by
-  simp only [epv_tree, epv_cond, not_le.mpr ht, if_false, and_self]
+  simp only [epv_tree]
+  epv_semi_prune
+  all_goals ((repeat' apply And.intro) <;> first | trivial | rfl)
 
 /-- singular type: the returned fields behind the shock are the singular similarity functions
 (generated SedovSingular, evaluated at the code's r2) scaled by the post-shock state -/
@@ -48,7 +50,7 @@ theorem sedov_behind_sing (p : SedovRunSing.P) (r t : ℝ) (ht : 0 < t)
   have h0 : ¬ SedovRunSing.c0 p r t := by rw [runSing_c0]; exact not_le.mpr ht
   have h1 : SedovRunSing.c1 p r t := by rw [runSing_c1]; exact hr
   simp only [SedovRunSing.density, SedovRunSing.velocity, SedovRunSing.pressure, h0, h1, if_false, if_true]
-  split_ifs <;> simp only [epv_leaf, epv_tree, singToShock, and_self]
+  split_ifs <;> simp only [epv_leaf, epv_tree, singToShock] <;> epv_semi_conj
 
 /-- standard type: post-shock state times the similarity-function values at the root atom -/
 theorem sedov_behind_std (p : SedovRunStd.P) (r t : ℝ) (ht : 0 < t)
@@ -62,11 +64,14 @@ theorem sedov_behind_std (p : SedovRunStd.P) (r t : ℝ) (ht : 0 < t)
   have h0 : ¬ SedovRunStd.c0 p r t := by rw [runStd_c0]; exact not_le.mpr ht
   have h1 : SedovRunStd.c1 p r t := by rw [runStd_c1]; exact hr
   simp only [SedovRunStd.density, SedovRunStd.velocity, SedovRunStd.pressure, h0, h1, if_false, if_true]
-  split_ifs <;> simp only [epv_leaf, stdToShock, and_self]
+  split_ifs <;> simp only [epv_leaf, stdToShock] <;> epv_semi_conj
 
 /-- pin: in the vacuum model `c2` is the test `rwant < self.rvv` with rvv = λ_vv · r2 -/
 theorem runVac_c2 (p : SedovRunVac.P) (r t : ℝ) :
-    SedovRunVac.c2 p r t ↔ r < p.l_vv * SedovShock.L1.r2 (vacToShock p) t := Iff.rfl
+    SedovRunVac.c2 p r t ↔ r < p.l_vv * SedovShock.L1.r2 (vacToShock p) t := by
+  first
+  | exact Iff.rfl
+  | (simp only [epv_cond, epv_leaf, vacToShock] <;> epv_semi_iff)
 
 /-- vacuum type, inside the hole: everything vanishes -/
 theorem sedov_behind_vac_hole (p : SedovRunVac.P) (r t : ℝ) (ht : 0 < t)
@@ -78,7 +83,8 @@ theorem sedov_behind_vac_hole (p : SedovRunVac.P) (r t : ℝ) (ht : 0 < t)
   have h1 : SedovRunVac.c1 p r t := by rw [runVac_c1]; exact hr
   have h2 : SedovRunVac.c2 p r t := by rw [runVac_c2]; exact hv
   simp only [SedovRunVac.density, SedovRunVac.velocity, SedovRunVac.pressure, h0, h1, h2, if_false, if_true]
-  split_ifs <;> simp only [epv_leaf, mul_zero, and_self]
+  split_ifs <;> simp only [epv_leaf] <;> (repeat' apply And.intro) <;>
+    first | trivial | epv_semi_eq | (simp only [mul_zero, zero_mul] <;> first | done | epv_semi_eq)
 
 /-- vacuum type, between the hole and the shock -/
 theorem sedov_behind_vac (p : SedovRunVac.P) (r t : ℝ) (ht : 0 < t)
@@ -93,7 +99,7 @@ theorem sedov_behind_vac (p : SedovRunVac.P) (r t : ℝ) (ht : 0 < t)
   have h1 : SedovRunVac.c1 p r t := by rw [runVac_c1]; exact hr
   have h2 : ¬ SedovRunVac.c2 p r t := by rw [runVac_c2]; exact hv
   simp only [SedovRunVac.density, SedovRunVac.velocity, SedovRunVac.pressure, h0, h1, h2, if_false, if_true]
-  split_ifs <;> simp only [epv_leaf, vacToShock, and_self]
+  split_ifs <;> simp only [epv_leaf, vacToShock] <;> epv_semi_conj
 
 /-- non-vacuity: default spherical problem at t = 1 with α = E (r2 = 1), r = 1/2 -/
 example : ∃ (p : SedovRunSing.P) (r t : ℝ), 0 < t ∧ r ≤ SedovShock.r2 (singToShock p) t := by
